@@ -12,6 +12,7 @@ mod c15;
 mod c17;
 mod c20;
 mod marketx;
+mod envabs;
 mod envprops;
 mod envx;
 mod scriptrng;
